@@ -23,6 +23,14 @@ Proof. exact frame_create_struct. Qed.
 Theorem C15_wf_create_names : forall names data p c,
   rectangular data -> create false names data = Ok p -> wf (fst (finish c p)).
 Proof. exact frame_create_names. Qed.
+(* rows that carry their own field names: Row objects ([is_row] = true) or namedtuples, renamed by a
+   list of names or put under a StructType (same names, a permutation, a subset, repeats).  Row objects
+   under a StructType need duplicate-free own names: keyword Rows and namedtuples always have them;
+   Row('a','a')(1,2) does not and is left unchanged by _match_fields_by_name (Example below). *)
+Theorem C15_wf_create_rows : forall is_row by_struct own names data p c,
+  (by_struct = true -> is_row = true -> nodup_names own = true) ->
+  create_rows is_row by_struct own names data = Ok p -> wf (fst (finish c p)).
+Proof. exact frame_create_rows. Qed.
 Theorem C15_wf_range : forall a b s p c, range_frame a b s = Ok p -> wf (fst (finish c p)).
 Proof. exact frame_range. Qed.
 
@@ -155,6 +163,29 @@ Example semi_example :
   map (fun f => (columns f, length (rows f))) (fst (run_prog [] 1%N [tA; tB; IJoin 0 1 JSemi [kn]; IJoin 0 1 JAnti [kn]]))
   = [([kn; vn], 3%nat); ([kn; vn], 2%nat); ([kn; vn], 2%nat); ([kn; vn], 1%nat)].
 Proof. vm_compute. reflexivity. Qed.
+
+(* Row(a=1, b=2) under StructType(a), StructType(b, a), StructType(a, a, b); renamed by ['x'] *)
+Example create_rows_example :
+  let an := s2n "a" in let bn := s2n "b" in
+  map (fun i => match step [] i with Ok p => Some (map pname (p_fields p), p_names p, p_rows p) | Err _ => None end)
+      [ICreateRows true true [an; bn] [an] [[VInt 1; VInt 2]];
+       ICreateRows true true [an; bn] [bn; an] [[VInt 1; VInt 2]];
+       ICreateRows true true [an; bn] [an; an; bn] [[VInt 1; VInt 2]];
+       ICreateRows true false [an; bn] [s2n "x"] [[VInt 1; VInt 2]];
+       ICreateRows true true [an; bn] [s2n "x"] [[VInt 1; VInt 2]]]
+  = [Some ([an], [an], [([an], [VInt 1])]);
+     Some ([bn; an], [bn; an], [([bn; an], [VInt 2; VInt 1])]);
+     Some ([an; an; bn], [an; an; bn], [([an; an; bn], [VInt 1; VInt 1; VInt 2])]);
+     Some ([s2n "x"; bn], [s2n "x"; bn], [([s2n "x"; bn], [VInt 1; VInt 2])]);
+     None].
+Proof. vm_compute. reflexivity. Qed.
+(* outside the generators: a Row whose OWN names repeat is handed on unchanged, 2 values under 1 name *)
+Example create_rows_dup_own_not_wf :
+  exists p, create_rows true true [kn; kn] [kn] [[VInt 1; VInt 2]] = Ok p /\ ~ wf_pre p.
+Proof.
+  eexists. split; [vm_compute; reflexivity|].
+  intros [_ H]. simpl in H. inversion H as [|? ? [_ Hl] _]; subst. simpl in Hl. discriminate.
+Qed.
 
 (* a ragged list with a list of names is not verified by createDataFrame: the second Row has two
    field names and one value (outside the quantifier "small tables"; this is why
